@@ -131,6 +131,10 @@ class Emitter:
             return f"({inner},)" if len(t[1]) == 1 else f"({inner})"
         if t[0] == "*":
             return f"*{t[1]}"
+        if t[0] == "attr":
+            return f"{t[1]}.{t[2]}"
+        if t[0] == "sub":
+            return f"{t[1]}[{self.e(t[2])}]"
         raise ValueError(f"bad tuple-target {t!r}")
 
     def target_names(self, t):
@@ -176,20 +180,34 @@ class Emitter:
                 v = self.e(ex)
                 if T:
                     # the value is unpacked first (into temporaries of the same shape); then every
-                    # name is reported and stored, left to right -- as a plain assignment is
-                    names = self.target_names(tgt)
-                    tmps = {n: self.tmp() for n in names}
+                    # leaf is reported and stored, left to right -- as a plain assignment is (a store
+                    # into an object evaluates its index / object at that moment, as Python does)
+                    leaves = []
 
                     def mirror(t):
                         if isinstance(t, str):
-                            return tmps[t]
+                            leaves.append((t, self.tmp()))
+                            return leaves[-1][1]
                         if t[0] == "*":
-                            return ["*", tmps[t[1]]]
+                            leaves.append((t[1], self.tmp()))
+                            return ["*", leaves[-1][1]]
+                        if t[0] in ("attr", "sub"):
+                            leaves.append((t, self.tmp()))
+                            return leaves[-1][1]
                         return ["t", [mirror(u) for u in t[1]]]
 
                     self.w(f"{self.target_src(mirror(tgt))} = {v}")
-                    for n in names:
-                        self.w(f"{n} = T.b(_A, {n!r}, {tmps[n]})")
+                    for leaf, tm in leaves:
+                        if isinstance(leaf, str):
+                            self.w(f"{leaf} = T.b(_A, {leaf!r}, {tm})")
+                        elif leaf[0] == "attr":
+                            name = f"{leaf[1]}.{leaf[2]}"
+                            self.w(f"{name} = T.b(_A, {name!r}, {tm})")
+                        else:
+                            to, tk = self.tmp(), self.tmp()
+                            self.w(f"{to} = {leaf[1]}")
+                            self.w(f"{tk} = {self.e(leaf[2])}")
+                            self.w(f"{to}[{tk}] = T.b(_A, '{leaf[1]}[%r]' % ({tk},), {tm})")
                 else:
                     self.w(f"{self.target_src(tgt)} = {v}")
             elif tgt[0] == "attr":
@@ -583,6 +601,13 @@ def emit_module(program, traced):
                 em.w("return hash(self.key)")
                 em.ind -= 1
                 em.w("")
+        if cls.get("falsy"):
+            # container-like: empty, hence false in a boolean context
+            em.w("def __len__(self):")
+            em.ind += 1
+            em.w("return 0")
+            em.ind -= 1
+            em.w("")
         for m in cls.get("methods", []):
             em.function(m, qual=f"{qual}.{m['name']}")
         for n in cls.get("nested", []):
